@@ -47,7 +47,7 @@ func pluginMain(ctlPath string) error {
 	}
 	pods, ctrs := buildState(ctl.In)
 	rec := &recorder{nObjs: len(pods) + len(ctrs)}
-	pl := &plugin{mode: ctl.Handler, updates: ctl.Updates, pods: pods, ctrs: ctrs}
+	pl := &plugin{mode: ctl.Handler, updates: ctl.Updates, updPad: ctl.In.UpdPad, pods: pods, ctrs: ctrs}
 	var started bool
 	var mu sync.Mutex
 	flush := func() {
@@ -182,6 +182,7 @@ func runCasePre(in *In, dir string) *Obs {
 	for _, u := range rtUpdates {
 		obs.RtUpdates = append(obs.RtUpdates, idxOf(u.GetContainerId(), 'c'))
 	}
+	obs.UpdBad = updBad(rtUpdates, in.UpdPad)
 	if syncErr != nil {
 		obs.ErrKind = "syncfn"
 	}
